@@ -152,6 +152,25 @@ def run(chk) -> None:
             return isinstance(base, ast.Name) and ".workers[" in ast.unparse(expand(base, refreshed[0], depth=3))
         fresh = bool(refreshed) and any(isinstance(a_, ast.Attribute) and a_.attr == "collected_events" and _live(a_.value) for e_ in sl_.exprs for a_ in ast.walk(e_))
         chk.ob("C09.R3", "the re-run sees the live buffer (snapshot refreshed from the reducer state)", bool(fresh), m=mc, node=c, fn=sr, instance="rerun:fresh-snapshot", reason="shared_state is not refreshed from the live collected_events")
+        # … and *all* of the step's buffers: the re-run executes the whole step again, so a snapshot holding only the buffer that was
+        # stale makes every other collect_events of the step start from nothing (its events are added a second time)
+        def _whole_map(e_: ast.AST) -> bool:
+            def live_map(x: ast.AST) -> bool:
+                while isinstance(x, ast.Call) and isinstance(x.func, ast.Attribute) and x.func.attr in ("items", "keys", "values", "copy") and not x.args:
+                    x = x.func.value
+                return isinstance(x, ast.Attribute) and x.attr == "collected_events" and _live(x.value)
+            for n_ in ast.walk(e_):
+                if isinstance(n_, ast.comprehension) and live_map(n_.iter):
+                    return True
+                if isinstance(n_, ast.Call) and last(call_name(n_) or "") in ("deepcopy", "dict", "copy") and n_.args and live_map(n_.args[0]):
+                    return True
+                if live_map(n_) and isinstance(n_, ast.Call):        # `.items()` of the live map used as a loop source
+                    return True
+            return False
+        whole = bool(refreshed) and any(_whole_map(e_) for e_ in sl_.exprs)
+        chk.ob("C09.R3", "the refreshed snapshot holds every buffer of the step (built by going over the whole live collected_events map)", whole, m=mc, node=c, fn=sr, instance="rerun:whole-snapshot",
+               reason="the snapshot handed to the re-run is not built from the whole live `collected_events` map (a literal with selected buffer ids): the step's other collect buffers look empty "
+                      "to the re-run, which adds their events again — an event ends up in two returned sets")
 
     # ---------------------------------------------------------------- R2 collect_events on all small buffers
     mi, ce = repo.func(f"{IC}:InternalContext.collect_events")
@@ -213,6 +232,10 @@ def run(chk) -> None:
 
 
 TWINS = [
+    Twin("re-run snapshot holds only the stale buffer", CL_REL, "                    collected_events={\n                        x: list(y)\n                        for x, y in state.workers[\n                            tick.step_name\n                        ].collected_events.items()\n                    },\n",
+         "                    collected_events={result.event_id: list(collected_events)},\n", "C09.R3"),
+    Twin("benign: re-run snapshot filled by a loop over the live map", CL_REL, "                updated_state = replace(\n                    this_execution.shared_state,\n                    collected_events={\n                        x: list(y)\n                        for x, y in state.workers[\n                            tick.step_name\n                        ].collected_events.items()\n                    },\n                )\n",
+         "                _fresh: dict = {}\n                for _bid, _evs in worker_state.collected_events.items():\n                    _fresh[_bid] = list(_evs)\n                updated_state = replace(\n                    this_execution.shared_state,\n                    collected_events=_fresh,\n                )\n", None),
     Twin("run completion keeps the collect buffers", CL_REL, "                    worker.collected_events.clear()\n", "", "C09.R1"),
     Twin("buffers cleared only for the completing step", CL_REL, "                for worker in state.workers.values():\n                    worker.collected_events.clear()\n                    worker.collected_waiters.clear()\n",
          "                worker_state.collected_events.clear()\n                for worker in state.workers.values():\n                    worker.collected_waiters.clear()\n", "C09.R1"),
